@@ -127,6 +127,20 @@ CLAIMED['C19'] = dict(
     design='§5 C19',
     technique="bounded symbolic execution of the format-diff binary's MIR (mirsym) with the regex engine as symbolic environment; obligations decided by cvc5/z3; CLI replay")
 
+CLAIMED['C12'] = dict(
+    category='model_checking',
+    text="make_diff is decided by an inductive step over the real MIR of its loop body, started at the loop head from an arbitrary state satisfying the "
+         "representation invariant (cursor positions, context queue = the last lines before the cursor, open hunk ends where the invariant says), for every "
+         "context size 0..3, with diff::lines as environment (one symbolic, valid alignment element per step): every line added to a hunk matches both "
+         "texts at its walk position, closed hunks are untouched and not overlapped, removed/added lines are recorded, the report is empty iff nothing "
+         "changed, the invariant is re-established - hence scripts of any length. ModifiedLines::from, the Display grammar of ModifiedLines (token model of "
+         "the formatter output), json begin/end lines and texts, checkstyle line numbers and XmlEscaped (per character) are decided for hunks of <= 3 "
+         "(thorough 4) lines with symbolic kinds and uninterpreted texts.",
+    note="Trusted: MIR printer, mirsym (mid-function start via MIR debug info), diff::lines returns a valid alignment, formatting as a token model, iterator "
+         "adaptors with real closure MIR. Outside: ModifiedLines::FromStr (str::lines / split_whitespace / parse are not encoded; checked natively only), "
+         "serde_json escaping, control characters in XML. Replay/validation: the real functions through hooks on all scripts of length <= 5.",
+    design='§5 C12')
+
 NA = {
     'C01': "token-sequence equivalence over all programs requires symbolic execution of rustc_parse and ~30 kLoC of AST rewriters; no encodable kernel carries it",
     'C02': "fixed-point of the full formatting pipeline (parser + all rewriters on both sides); not encodable, and idempotence of kernels does not imply it",
